@@ -127,6 +127,8 @@ class Run:
     def finish(self):
         self.cleanup()
         self.cov["distinct_nontrivial"] = len(self._nontrivial)
+        if not self.cov["samples"]:      # a check that forgot to record samples still has to produce readable evidence
+            self.cov["samples"] = [{"mc_runs": self.cov["mc_runs"][:2], "trace_runs": self.cov["trace_runs"][:2]}]
         for k in self.known_hits:
             print("KNOWN-FINDING: property=%s %s" % (self.pid, k["what"]))
         for key, what, path in self.violations[:20]:
